@@ -203,7 +203,7 @@ def all_substitutions(s):
                 yield s[:i] + bytes([c]) + s[i + 1:]
 
 
-def _cases(rng, tier):
+def cases(rng, tier):
     thorough = tier == "thorough"
 
     def both(b):
@@ -267,18 +267,6 @@ def _cases(rng, tier):
             yield from both(b"GET" + s + b"\n")
             if thorough:
                 yield from both(b"GET /" + s + b"TTP/1.1\r\n")
-
-
-def cases(rng, tier):
-    """the generated cases, with those that carry a known-finding signature moved to the end: the framework examines the
-    first failing cases in order, so failures outside the known regions must come first to be seen"""
-    late = []
-    for l in _cases(rng, tier):
-        if classify(l, "", "") is not None:
-            late.append(l)
-        else:
-            yield l
-    yield from late
 
 
 def shrink(line):
